@@ -575,14 +575,14 @@ func TestVerif_C14_Enum(t *testing.T) {
 	m := mon.New("C14", "enum")
 	defer m.Finish(t)
 	depth := m.N(3, 4)
-	bigDepth := m.N(1, 4) // quick: 65535/65536 payloads only in one-frame traces (+ sentinel); the random part fragments big messages
+	bigDepth := m.N(1, 2) // quick: 65535/65536 payloads only in one-frame traces (+ sentinel); the random part fragments big messages
 	sample := m.N(8, 6)
 	m.Rule(fmt.Sprintf("bounded-exhaustive, prefix-closed: every trace of <= %d frames over opcode{0,1,2,8,9,10,3,11} x FIN x RSV{0,1,2,3} x mask{right,wrong} x "+
 		"length{0,5,125,126,65535,65536,2^63,2^64-256} (+15 close payload variants) whose proper prefixes are violation-free (decided by refws.Receiver), at most one "+
 		"65535/65536 payload per trace and only in traces of <= %d frames, each followed by a sentinel ping + message; x {client,server} x {compression off, negotiated} x read "+
 		"limits {0, exact, exact-1, first-frame-1, 1} (non-zero limits: every trace of < %d frames; of the %d-frame traces 1/%d (by trace index) of those with a data frame, and "+
-		"in the quick tier only limit 1 for the others that carry a top-bit length; quick tier: with compression negotiated a full-depth trace is run only if RSV1 occurs in it); distinct = role x compression x model terminal kind@frame x rule x limit? x top-bit class",
-		depth, bigDepth, depth, depth, sample))
+		"only limit 1 for the other %d-frame traces that carry a top-bit length on a data or continuation frame; with compression negotiated a %d-frame trace is run only if RSV1 occurs in it); distinct = role x compression x model terminal kind@frame x rule x limit? x top-bit class",
+		depth, bigDepth, depth, depth, sample, depth, depth))
 	m.Exhaustive(true)
 	syms := verifC14Alphabet()
 	// continuing symbols per (compression, message open?): decided by the model
@@ -620,7 +620,7 @@ func TestVerif_C14_Enum(t *testing.T) {
 		bigs   int
 		rsv1   bool // some prefix frame carries RSV1
 	}
-	quickPrune := m.Quick()
+	quickPrune := true // both tiers prune at their own maximum depth (thorough is complete one level deeper than quick)
 	var jobs []job
 	for _, role := range []refws.Role{refws.RoleServer, refws.RoleClient} {
 		for _, comp := range []bool{false, true} {
@@ -631,8 +631,8 @@ func TestVerif_C14_Enum(t *testing.T) {
 					r1 = r1 || syms[si].rsv == 1
 				}
 				jobs = append(jobs, job{role, comp, append([]int{}, prefix...), bigs, r1})
-				if len(prefix) == depth-1 {
-					return
+				if len(prefix) == depth-1 || (bigs > 0 && len(prefix) >= bigDepth-1) {
+					return // full depth, or a big payload is on board and the trace may not grow beyond bigDepth frames
 				}
 				for _, si := range cont[stKey{comp, open}] {
 					s := syms[si]
@@ -675,6 +675,12 @@ func TestVerif_C14_Enum(t *testing.T) {
 		j := jobs[ji]
 		acc := verifC14NewAcc(m)
 		defer acc.Flush()
+		if os.Getenv("VERIF_C14_DEBUG_JOBS") != "" {
+			t0 := time.Now()
+			defer func() {
+				fmt.Printf("JOB %d %v comp=%v prefix=%v cases=%d %.2fs\n", ji, j.role, j.comp, j.prefix, acc.cases, time.Since(t0).Seconds())
+			}()
+		}
 		seq := make([]int, len(j.prefix)+1)
 		copy(seq, j.prefix)
 		for si := range syms {
@@ -683,7 +689,7 @@ func TestVerif_C14_Enum(t *testing.T) {
 				continue
 			}
 			if quickPrune && j.comp && len(seq) == depth && !j.rsv1 && s.rsv != 1 {
-				continue // quick tier: with compression negotiated, full-depth traces only when RSV1 occurs in them
+				continue // with compression negotiated, full-depth traces only when RSV1 occurs in them
 			}
 			seq[len(seq)-1] = si
 			frames := verifC14Trace(syms, seq, j.role, j.comp, true)
@@ -693,21 +699,21 @@ func TestVerif_C14_Enum(t *testing.T) {
 			origin := func() string { return fmt.Sprintf("enum:%v", seq) }
 			verifC14Eval(acc, cfg, frames, wire, -1, origin)
 			acc.Count("traces", 1)
-			hasData, hasTop := false, false
+			hasData, hasTop := false, false // hasTop: a top-bit length on a data/continuation frame (on other opcodes another rule fires first)
 			for i := 0; i < len(seq); i++ {
 				if frames[i].Opcode <= 2 {
 					hasData = true
-				}
-				if frames[i].TopBit() {
-					hasTop = true
+					if frames[i].TopBit() {
+						hasTop = true
+					}
 				}
 			}
 			if len(seq) == depth && !hasTop && (!hasData || tid%sample != 0) {
 				continue
 			}
-			lims := verifC14Limits(frames)
+			lims := verifC14Limits(frames[:len(seq)]) // relative to the enumerated frames; the sentinel message only gets limit 1
 			if quickPrune && len(seq) == depth && hasTop && (!hasData || tid%sample != 0) {
-				lims = []int64{1} // quick tier: the smallest limit only (the one a negative length slips under)
+				lims = []int64{1} // at full depth: the smallest limit only (the one a negative length slips under)
 			}
 			for _, l := range lims {
 				cfg.limit = l
@@ -716,7 +722,6 @@ func TestVerif_C14_Enum(t *testing.T) {
 		}
 	})
 }
-
 
 // random long traces, mostly valid, ending wherever the first violation falls
 func verifC14RandTrace(r *vrand.Rand, role refws.Role, comp bool, maxFrames int) []refws.Frame {
@@ -875,6 +880,11 @@ func TestVerif_C14_Random(t *testing.T) {
 		lims = append(lims, int64(r.Range(1, 300)))
 		cfg.limit = lims[r.Intn(len(lims))]
 		verifC14Eval(accFor(w), cfg, frames, wire, -1, func() string { return fmt.Sprintf("random:%d", i) })
+		if i < 3 {
+			exp := refws.Receive(refws.RecvConfig{Role: role, Limit: cfg.limit, Compression: comp}, frames, -1)
+			m.Sample(map[string]interface{}{"trace": i, "role": role.String(), "compression": comp, "limit": cfg.limit, "frames": refws.Describe(frames), "wire_bytes": len(wire),
+				"model": map[string]interface{}{"delivered": len(exp.Messages), "pongs": len(exp.Pongs), "terminal": exp.Term.String(), "rule": exp.Reason, "at_frame": exp.TermFrame}})
+		}
 	})
 	mon.Parallel(ncut, func(w, i int) {
 		r := m.Rand("cut", i)
